@@ -4,7 +4,8 @@
     every table of <=2 users x 2 passwords x {no mount, m1}.
 (G) AuthGen: every table shape over 6 user names (absent / 2-field / 3-field line: 728);
     python adds line orders (sorted, reversed, seeded shuffles) and the candidate
-    credentials (right / another user's / empty / wrong password, absent and empty user).
+    credentials (right / another user's / empty / wrong password, absent and empty user, and
+    near misses: user/password boundary moved, swapped, joined, padded, case-changed, truncated).
 (T) the Go driver materialises each table as a credentials file, loads it with the real
     auth.FileHandler (and the static handler) and records every Authenticate outcome;
     AuthTrace requires load success and outcome = Admit with the entry's mount point.
@@ -34,6 +35,14 @@ def classify(scn, line):
     if e["ok"] and not should:
         return "invalid-credentials-admitted"
     return "wrong-mount-point"
+
+
+def near_misses(u, p):
+    """credentials that are almost right: the boundary between user name and password moved, the two swapped or joined,
+    case or padding changed, one character short - none of them is the configured pair"""
+    out = [(u[:-1], u[-1:] + p), (u + p[:1], p[1:]), (u + p, ""), ("", u + p), (p, u), (u + ":" + p, ""), (u, p + " "), (u + " ", p),
+           (u.upper(), p), (u, p.upper()), (u, p[:-1]), (u[:-1], p), (u, p + p), (u + "\x00", p)]
+    return [{"u": a, "p": b} for a, b in out if (a, b) != (u, p)]
 
 
 def check(run):
@@ -66,6 +75,9 @@ def check(run):
             if u not in [e["u"] for e in table]:
                 queries.append({"u": u, "p": "pw-" + u})
         queries += [{"u": "", "p": ""}, {"u": "", "p": table[0]["p"]}, {"u": "mallory", "p": "x"}]
+        names = {e["u"]: e["p"] for e in table}
+        for e in (table if thorough else table[:1] + table[-1:]):
+            queries += [q for q in near_misses(e["u"], e["p"]) if names.get(q["u"]) != q["p"]]
         for o in orders:
             scns.append({"kind": "file", "table": table, "order": o, "queries": queries})
     # three-field lines whose mount point column is empty ("user:hash:"): the default mount point applies
@@ -73,8 +85,8 @@ def check(run):
         table = [{"u": u, "p": "pw-" + u, "m": "" if i % 2 == 0 else "tenant-" + u[0], "t": True} for i, u in enumerate(USERS[:k + 1])]
         queries = [{"u": e["u"], "p": e["p"]} for e in table]
         scns.append({"kind": "file", "table": table, "order": list(range(len(table))), "queries": queries})
-    for u, p in [("admin", "secret"), ("", ""), ("a", "")]:
-        qs = [{"u": a, "p": b} for a in (u, "", "other", u + "x") for b in (p, "", "other", p + "x")]
+    for u, p in [("admin", "secret"), ("", ""), ("a", ""), ("", "only-a-password"), ("ab", "ab")]:
+        qs = [{"u": a, "p": b} for a in (u, "", "other", u + "x") for b in (p, "", "other", p + "x")] + near_misses(u, p)
         scns.append({"kind": "static", "table": [{"u": u, "p": p, "m": ""}], "order": [0], "queries": qs})
     spath = os.path.join(run.scratch, "scenarios.ndjson")
     with open(spath, "w") as f:
